@@ -9,7 +9,7 @@ from tools import pull, vlib
 class C13(vlib.Spec):
     model_vo = ["theories/Pull/CorrJoin.vo"]
     props_vo = "theories/Props/C13.vo"
-    theorems = ['C13_poll_invariant', 'C13_run_invariant', 'C13_nothing_pending_at_end', 'C13_emits_join_of_tables', 'C13_new_tick', 'C13_new_tick_lhs_smaller', 'C13_new_tick_rhs_smaller', 'C13_build', 'C13_drain_multiset', 'C13_incremental', 'C13_incremental_persisted', 'C13_set_each_pair_once', 'C13_terminates', 'C13_fuel_enough', 'C13_new_tick_same_as_incremental', 'C13_ticks', 'C13_checker_sound']
+    theorems = ['C13_poll_invariant', 'C13_run_invariant', 'C13_nothing_pending_at_end', 'C13_emits_join_of_tables', 'C13_new_tick', 'C13_new_tick_lhs_smaller', 'C13_new_tick_rhs_smaller', 'C13_build', 'C13_drain_multiset', 'C13_incremental', 'C13_incremental_persisted', 'C13_set_each_pair_once', 'C13_terminates', 'C13_fuel_enough', 'C13_new_tick_same_as_incremental', 'C13_ticks', 'C13_checker_sound', 'C13_checker_complete']
     crate, group, binary = "h_pull", "light", "h_pull"
     imports = "From HV Require Import Pull.CorrJoin."
     trusted_base = ["coqc 8.16.1 kernel (vm_compute used for case evaluation only)",
